@@ -134,7 +134,7 @@ func c05verdict(w *W, c *C, id string, n int, es [][2]int, kinds []int, scopes [
 	fm := FilesMap(files)
 	br := w.Build(files)
 	c.Distinct("all", id)
-	c.Count("evaluations_override")
+	c.Count("evaluations_extra")
 	if br.Panic != "" {
 		c.Violation("panic", "tool panicked ("+id+"):\n"+br.Panic, fm, nil)
 		return
